@@ -58,6 +58,7 @@ package silence
 //@   after call errors.Is assume res0 == isEOF(arg0)
 //@   ensures [only-a-clean-end-of-input-completes-the-state] result1 == nil ==> called("protodelim.UnmarshalFrom") && isEOF(ret("protodelim.UnmarshalFrom"))
 //@   ensures [any-other-read-error-is-reported] called("protodelim.UnmarshalFrom") && ret("protodelim.UnmarshalFrom") != nil && !isEOF(ret("protodelim.UnmarshalFrom")) ==> result1 != nil
+//@   ensures [only-a-read-error-or-a-record-without-a-silence-fails-the-decode] result1 != nil ==> result1 == ErrInvalidState || (called("protodelim.UnmarshalFrom") && result1 == ret("protodelim.UnmarshalFrom") && !isEOF(result1))
 //@   at call postprocessUnmarshalledSilence assert [legacy-form-upgraded-before-filing] arg0 != nil
 //@   after call protodelim.UnmarshalFrom assume s.Silence != nil ==> (s.Silence.MatcherSets == nil || fresh(s.Silence.MatcherSets)) && (s.Silence.Matchers == nil || fresh(s.Silence.Matchers))
 //@   ensures [a-decoded-silence-is-filed] result1 == nil && countnil0("protodelim.UnmarshalFrom") > 0 ==> len(result0) > 0
@@ -208,7 +209,7 @@ package silence
 // setSilence: offer a locally built silence to the same last-writer-wins merge as replicated ones; index it when it
 // is new; gossip it when it changed the state. A marshalling error leaves everything untouched.
 //@ func (*Silences).setSilence
-//@   props C12 C02 C09
+//@   props C12 C02 C09 C11
 //@   requires s != nil && storeInv(s) && wfSil(msil) && s.broadcast != nil && s.metrics != nil && metricsOK(s)
 //@            && s.metrics.matcherCompileIndexSilenceErrorsTotal != nil && s.logger != nil
 //@   assumes len(msil.Silence.MatcherSets) > 0 ==> msil.Silence.MatcherSets[0] != nil
@@ -545,6 +546,7 @@ package silence
 //@   ensures [asked-in-order] count("dynamic:elem:field:filters") <= len(deref(q).filters) && counttrue0("dynamic:elem:field:filters") <= count("dynamic:elem:field:filters")
 //@   ensures [error-propagates] called("dynamic:elem:field:filters") && ret1("dynamic:elem:field:filters") != nil ==> result1 == ret1("dynamic:elem:field:filters") && result0 == res
 //@   ensures [appended-is-a-copy] len(result0) == len(res) + 1 ==> result0[len(res)] != nil && result0[len(res)].Id == sil.Id && result0[len(res)].StartsAt == sil.StartsAt && result0[len(res)].EndsAt == sil.EndsAt
+//@   ensures [the-answer-is-a-copy-of-its-own-never-the-stored-silence] len(result0) == len(res) + 1 ==> result0[len(res)] != sil && fresh(result0[len(res)])
 //@   ensures [at-most-one-more] (result0 == res || len(result0) == len(res) + 1) && (result1 != nil ==> result0 == res)
 //@   ensures [earlier-results-kept] forall i int :: 0 <= i && i < len(res) ==> result0[i] == old(res[i])
 //@   ensures [same-or-new-array] base(result0) == base(res) || fresh(result0)
@@ -781,3 +783,19 @@ package silence
 //@   ensures [empty-answer-is-not-found] ret2("Silences).Query") == nil && len(ret("Silences).Query")) == 0 ==> result0 == nil && result1 == ErrNotFound
 //@   ensures [first-answer] ret2("Silences).Query") == nil && len(ret("Silences).Query")) > 0 ==> result0 == ret("Silences).Query")[0] && result1 == nil
 //@   noeffect Silences).Query
+
+// ---- C11 / C12 / C18: start-up. The store is built with the configured retention and limits; a snapshot file that
+// does not exist is a fresh start, any other open error is reported; whatever was opened (or handed in as a reader)
+// is loaded through loadSnapshot, and a load error is returned, never swallowed.
+//@ func New
+//@   props C11 C12 C18
+//@   nosafe
+//@   after call errors.New assume res0 != nil
+//@   at call Silences).loadSnapshot assert [loads-what-was-opened-or-given] count("Silences).loadSnapshot") == 0 && arg0 != nil && fresh(arg0)
+//@             && arg0.retention == o.Retention && arg0.limits == o.Limits && arg0.st != nil && len(arg0.st) == 0
+//@             && (called("os.Open") && ret1("os.Open") == nil ? typeis(arg1, *os.File) && unbox(arg1, *os.File) == ret("os.Open") : arg1 == o.SnapshotReader)
+//@   ensures [a-missing-file-is-a-fresh-start-any-other-open-error-is-reported] called("os.Open") && ret1("os.Open") != nil && !ret("os.IsNotExist") ==> result0 == nil && result1 == ret1("os.Open")
+//@   ensures [a-load-error-is-reported] called("Silences).loadSnapshot") && ret("Silences).loadSnapshot") != nil ==> result1 == ret("Silences).loadSnapshot")
+//@   ensures [an-opened-snapshot-is-loaded] called("os.Open") && ret1("os.Open") == nil ==> called("Silences).loadSnapshot")
+//@   ensures [success-yields-a-store] result1 == nil ==> result0 != nil && result0.retention == o.Retention && result0.limits == o.Limits
+//@   noeffect Silences).loadSnapshot Options).validate newMetrics
